@@ -238,6 +238,18 @@ func runC16(w *h.W, batch int) {
 }
 
 func c16Case(w *h.W, r *h.Rng, corp *gen.Corpus, topo c16Topo, sb, fb []string, mode string) {
+	// configuration variant: replicas of a shard tried in random order. The outcome of a shard is then order-independent only
+	// when no replica gives a fail-fast answer, so such cases use the behaviours ok / error only (one case in five).
+	shuffle := mode == "seeded" && r.Chance(1, 5)
+	if shuffle {
+		sb = append([]string{}, sb...)
+		for i := range sb {
+			if sb[i] != "ok" {
+				sb[i] = "err"
+			}
+		}
+		mode = "seeded+shuffled-replicas"
+	}
 	desc := map[string]any{"topology": topo.String(), "search_behaviour(per host)": strings.Join(sb, ","), "fetch_behaviour(per host)": strings.Join(fb, ","), "mode": mode}
 	q := corp.Query(r, gen.QueryOpt{MaxDepth: 1})
 	if r.Bool() {
@@ -284,7 +296,7 @@ func c16Case(w *h.W, r *h.Rng, corp *gen.Corpus, topo c16Topo, sb, fb []string, 
 	hot, hotTier := mk("hot", topo.hs, topo.hr, 0)
 	cold, coldTier := mk("cold", topo.cs, topo.cr, topo.hs*topo.hr)
 	empty := &stores.Stores{Shards: [][]string{}, Vers: []string{}}
-	ing := search.NewIngestor(search.Config{HotStores: hot, HotReadStores: empty, ReadStores: cold, WriteStores: cold}, clients)
+	ing := search.NewIngestor(search.Config{HotStores: hot, HotReadStores: empty, ReadStores: cold, WriteStores: cold, ShuffleReplicas: shuffle}, clients)
 	ord := seq.DocsOrderDesc
 	if asc {
 		ord = seq.DocsOrderAsc
@@ -308,9 +320,30 @@ func c16Case(w *h.W, r *h.Rng, corp *gen.Corpus, topo c16Topo, sb, fb []string, 
 	})
 	w.Count("proxy_searches", 1)
 	// ---- oracle over what the fake stores were asked and answered
+	skippedAnswering := ""
 	evalTier := func(tier [][]*c16Host) (answered []*c16Host, missing int, special string) {
 		for _, shard := range tier {
 			var ans *c16Host
+			if shuffle {
+				// any order of the replicas (behaviours ok / error only): the shard answers iff some replica would
+				for _, hst := range shard {
+					if hst.search == "ok" && hst.searches > 0 {
+						ans = hst
+						break
+					}
+				}
+				if ans == nil {
+					for _, hst := range shard {
+						if hst.search == "ok" {
+							skippedAnswering = hst.name
+						}
+					}
+					missing++
+				} else {
+					answered = append(answered, ans)
+				}
+				continue
+			}
 			for _, hst := range shard {
 				if hst.searches == 0 {
 					break // not reached (an earlier replica answered or short-circuited)
@@ -339,6 +372,9 @@ func c16Case(w *h.W, r *h.Rng, corp *gen.Corpus, topo c16Topo, sb, fb []string, 
 	bad := ""
 	class := ""
 	hotAns, hotMissing, hotSpecial := evalTier(hotTier)
+	if skippedAnswering != "" && pn == "" {
+		bad = fmt.Sprintf("replica-skipped: replica %s would have answered but was never asked although no other replica of its shard answered (replicas tried in shuffled order)", skippedAnswering)
+	}
 	partial := err != nil && errors.Is(err, consts.ErrPartialResponse)
 	failed := pn != "" || (err != nil && !partial)
 	var expectFrom []*c16Host
